@@ -422,6 +422,107 @@ func runC14(c *Ctx) {
 	// insert must not replace the first: under the write lock the entry is looked up again, the
 	// insert happens only when it is still absent, and otherwise the instance found is what the
 	// retrieval hands back.
+	// ---------- R9: what a pool hands out is private to the one who got it ----------
+	// Two queries running at the same time hold two pooled objects.  A constructor that copies a
+	// template (or anything else it shares with its other results) into each new object makes their
+	// slices / maps share memory, and a write through one (append to the slice kept for reuse) is seen
+	// through the other.
+	{
+		c.Rule("C14.R9", "EFF", "the constructor of a pool builds each object from constants and fresh allocations only", 1)
+		n := 0
+		for _, fn := range c.P.AllLibFuncs() {
+			eachInstr(fn, func(_ *ssa.BasicBlock, in ssa.Instruction) {
+				var ctor ssa.Value
+				var st ssa.Instruction
+				switch x := in.(type) {
+				case *ssa.Store:
+					// sync.Pool{New: f}
+					fa, ok := x.Addr.(*ssa.FieldAddr)
+					if !ok {
+						return
+					}
+					pt, ok := fa.X.Type().Underlying().(*types.Pointer)
+					if !ok || typeStr(pt.Elem()) != "sync.Pool" {
+						return
+					}
+					if stt, ok := pt.Elem().Underlying().(*types.Struct); !ok || stt.Field(fa.Field).Name() != "New" {
+						return
+					}
+					ctor, st = x.Val, x
+				case ssa.CallInstruction:
+					// syncutil.NewPool(f)
+					cal := x.Common().StaticCallee()
+					if cal == nil || !strings.HasPrefix(cal.Name(), "NewPool") || len(x.Common().Args) != 1 {
+						return
+					}
+					if _, isSig := x.Common().Args[0].Type().Underlying().(*types.Signature); !isSig {
+						return
+					}
+					ctor, st = x.Common().Args[0], x
+				default:
+					return
+				}
+				var nf *ssa.Function
+				switch v := ctor.(type) {
+				case *ssa.MakeClosure:
+					nf, _ = v.Fn.(*ssa.Function)
+				case *ssa.Function:
+					nf = v
+				}
+				if nf == nil {
+					return
+				}
+				n++
+				bad := ""
+				hasRef := func(t types.Type) bool {
+					found := false
+					var walk func(t types.Type, d int)
+					walk = func(t types.Type, d int) {
+						if d > 4 || found {
+							return
+						}
+						switch u := t.Underlying().(type) {
+						case *types.Slice, *types.Map, *types.Chan, *types.Signature, *types.Interface:
+							found = true
+						case *types.Pointer:
+							found = true
+						case *types.Struct:
+							for i := 0; i < u.NumFields(); i++ {
+								walk(u.Field(i).Type(), d+1)
+							}
+						case *types.Array:
+							walk(u.Elem(), d+1)
+						}
+					}
+					walk(t, 0)
+					return found
+				}
+				for _, g := range groupFuncs(c.P, nf) {
+					for _, fv := range g.FreeVars {
+						t := fv.Type()
+						if p, isP := t.Underlying().(*types.Pointer); isP {
+							t = p.Elem()
+						}
+						if hasRef(t) && bad == "" {
+							bad = "the constructor of the pool reads " + fv.Name() + " (" + typeStr(t) + "), which it shares with every other object it builds: the slices / maps / pointers in it are then common to all pooled objects, and two queries that hold two of them at the same time write the same memory"
+						}
+					}
+					eachInstr(g, func(_ *ssa.BasicBlock, in2 ssa.Instruction) {
+						if ld, ok := in2.(*ssa.UnOp); ok && ld.Op == token.MUL {
+							if gl, isG := ld.X.(*ssa.Global); isG && gl.Pkg != nil && strings.HasPrefix(gl.Pkg.Pkg.Path(), "github.com/AdguardTeam/urlfilter") && hasRef(ld.Type()) && bad == "" {
+								bad = "the constructor of the pool copies the package variable " + gl.Name() + " into each object: its slices / maps / pointers are then common to all pooled objects"
+							}
+						}
+					})
+				}
+				c.Check(bad == "", "C14.R9", shortFn(fn)+": pool constructor", st.Pos(), "no captured variable or package variable holding references is read by New", bad)
+			})
+		}
+		if n == 0 {
+			c.Notes = append(c.Notes, "no sync.Pool with a New function in the library")
+		}
+	}
+
 	importRules(c, runC11, map[string]string{"C11.R4": "C14.R8"}, map[string]string{"C14.R8": "what a file list hands back does not depend on the retrievals before it: of the read buffer that the list's lock guards only the bytes of this read are looked at (shared with C11.R4)"})
 	{
 		c.Rule("C14.R7", "LOCK", "the cache insert re-checks the entry under the write lock and keeps the instance already stored", 1)
